@@ -66,7 +66,9 @@ def tasks(tier):
             for a in range(len(MENUS)):
                 if quick and a not in (0, 3):
                     continue
-                if quick and late_kind == "async-late" and g not in (0, 3):
+                if late_kind == "async-late" and (g not in (0, 3) if quick else (g not in (0, 3, 4, 6) or a not in (0, 3))):
+                    continue
+                if not quick and late_kind == "sync" and a not in (0, 3, 4, 6):
                     continue
                 out.append({"kind": "names", "guard_menu": g, "act_menu": a, "late_kind": late_kind, "quick": quick, "equal": late_kind == "sync" and (g + a) % 2 == 1,
                             "private": late_kind == "sync" and g % 2 == 0})
@@ -81,14 +83,14 @@ def tasks(tier):
 
 BUDGET = {
     "quick": {"max_secs": 600, "task_secs": 400, "path_secs": 30},
-    "thorough": {"max_secs": 3600, "task_secs": 3000, "path_secs": 60},
+    "thorough": {"max_secs": 6000, "task_secs": 3000, "path_secs": 60},
 }
 BOUNDS = {
     "quick": "3-state ring driven by 3 consecutive `go` events; the guard name `ok1` and the inline action `act` provided by each of 7 (2 for act) provider sets "
     "over {machine, model, constructor listener, late listener}; `on_enter_state` and `after_go` provided by 3 sets (machine; model + both listeners; late listener only); the "
     "late listener attached before event 0, 1 or 2, once, twice in one call, or again before the next event; a second instance of the class with its own "
     "listener must stay silent; a listener added to a shallow copy must not reach a later deep copy of the original; the guard also written as the expression 'ok1 and ok2'; guard values symbolic per provider; in half of the sync tasks the guard and action names start with an underscore (`_ok1`, `_act`); a separate scenario: 2-3 instances of one class whose constructor listener / model has plain or coroutine callbacks, in 4 creation orders, each driven afterwards; in half of the tasks the model class derives from statemachine.model.Model; a guard given as a plain data attribute (None at attachment, re-assigned before each event) on model / listeners; a variant whose listeners all compare equal and are falsy (define __len__ returning 0); variant in which the late listener's methods are coroutine functions on an otherwise sync machine.",
-    "thorough": "all 7x7 guard/action provider sets.",
+    "thorough": "7 guard provider sets x 4 action provider sets (sync late listener), 4 x 2 (async late listener), 6 x 6 convention-provider sets, every attach time x repetition.",
 }
 OUTSIDE = "callables and properties passed by reference (late listeners resolve names only, documented); more than one late listener"
 OBLIGATIONS = ["providers-per-instance", "shallow-copy-listener-isolated", "attribute-guard-blocked", "attribute-guard-passed", "late-listener-called", "guard-conjunction-blocked", "guard-on-late-listener", "reattached", "second-instance-silent", "model-provider"]
@@ -175,7 +177,7 @@ def run(ctx, params):
     am = base_am(with_flag, expr)
     if private:
         am = json.loads(json.dumps(am).replace('"ok1"', '"_ok1"').replace('"act"', '"_act"').replace("ok1 and ok2", "_ok1 and _ok2"))
-    conv_pool = CONV_MENUS if not quick else [CONV_MENUS[i] for i in (0, 4, 7)]
+    conv_pool = [CONV_MENUS[i] for i in ((0, 2, 4, 6, 7, 8) if not quick else (0, 4, 7))]
     if expr:
         conv_pool = [CONV_MENUS[0]]
     enter_prov = conv_pool[ctx.choose(len(conv_pool), "enter_menu")] if not with_flag else []
